@@ -371,6 +371,14 @@ func TestVerifChannelExec(t *testing.T) {
 					if err == nil {
 						me.out = append(me.out, vMsg{kind: "settle", id: pd.HtlcIndex, pre: pre})
 					}
+				} else if e.Y == 2 {
+					// update_fail_malformed_htlc: the receiver handles it like a fail
+					err = me.lc.MalformedFailHTLC(
+						pd.HtlcIndex, lnwire.CodeInvalidOnionHmac, sha256.Sum256([]byte("onion")), nil,
+					)
+					if err == nil {
+						me.out = append(me.out, vMsg{kind: "fail", id: pd.HtlcIndex})
+					}
 				} else {
 					err = me.lc.FailHTLC(pd.HtlcIndex, []byte("x"), nil, nil, nil)
 					if err == nil {
@@ -455,6 +463,8 @@ func TestVerifChannelExec(t *testing.T) {
 					case *lnwire.UpdateFulfillHTLC:
 						me.out = append(me.out, vMsg{kind: "settle", id: mm.ID, pre: mm.PaymentPreimage})
 					case *lnwire.UpdateFailHTLC:
+						me.out = append(me.out, vMsg{kind: "fail", id: mm.ID})
+					case *lnwire.UpdateFailMalformedHTLC:
 						me.out = append(me.out, vMsg{kind: "fail", id: mm.ID})
 					case *lnwire.UpdateFee:
 						me.out = append(me.out, vMsg{kind: "fee", fee: int64(mm.FeePerKw)})
